@@ -11,7 +11,7 @@ ID = 'C09'
 LEVEL = 'exploration'
 RULE = (
     'cases: random non-negative density grids (2-8 voxels per axis, unequal axes) with integer counts, float '
-    'densities, heavy-tailed counts up to 1e9, 0-95 % unvisited voxels, down to a single visited voxel (p = 1); '
+    'densities, densities whose total is 1 or within 1e-12 .. 3e-3 of 1, heavy-tailed counts up to 1e9, 0-95 % unvisited voxels, down to a single visited voxel (p = 1); '
     'temperatures log-uniform in [1e-3, 1e6] K (kT from 1e-7 to 86 eV); default and explicit graph thresholds; half of the volumes come '
     'from the real trajectory_to_volume; density arrays in C order, Fortran order, as transposed / axis-swapped / strided / reversed views, dtypes int64 / int32 / float32 / float64.  Oracle: direct formulas with the exact SI value of k_B in eV/K, all '
     'voxel pairs for monotonicity (via sorting).  Non-trivial = at least 2 visited and 1 unvisited voxel; distinct '
@@ -33,7 +33,9 @@ def setup(ctx):
     import gemdat.path as gp
     from gemdat.volume import FreeEnergyVolume, Volume
 
-    _mon.attach(Volume, 'get_free_energy', label='Volume.get_free_energy')
+    from .. import retain as _rt
+
+    _mon.attach(Volume, 'get_free_energy', label='Volume.get_free_energy', retain=_rt.volume, scribble=True)
     _mon.attach(FreeEnergyVolume, 'free_energy_graph', label='FreeEnergyVolume.free_energy_graph')
     _mon.attach(gp, 'free_energy_graph', label='path.free_energy_graph')
 
@@ -49,7 +51,7 @@ def run_unit(unit, rng, ctx):
 
     kind, rot, m = geom.random_lattice(rng, lo=3.0, hi=8.0)
     shape = tuple(int(x) for x in rng.integers(2, 8 if ctx.tier == 'quick' else 9, size=3))
-    mode = str(rng.choice(['int', 'float', 'heavy', 'single', 'traj']))
+    mode = str(rng.choice(['int', 'float', 'heavy', 'single', 'traj', 'prob']))
     if mode == 'traj':
         from .. import gen
 
@@ -62,6 +64,13 @@ def run_unit(unit, rng, ctx):
             data = rng.integers(0, 20, size=shape)
         elif mode == 'float':
             data = rng.uniform(0, 5, size=shape)
+        elif mode == 'prob':
+            # a density that is (nearly) a probability already: total exactly 1, or off by 1e-12 .. 3e-3
+            data = rng.uniform(0, 1, size=shape) ** 3
+            data = data / data.sum()
+            scale_ = float(rng.choice([1.0, 1 + 10.0 ** (-float(rng.uniform(2.5, 12))), 1 - 10.0 ** (-float(rng.uniform(2.5, 12)))]))
+            data = data * scale_
+            ctx.count('densities_with_total_within_1e-2_of_one_but_not_one', abs(data.sum() - 1) > 0)
         elif mode == 'heavy':
             data = np.floor(np.exp(rng.uniform(0, 20, size=shape))).astype(np.int64)
         else:
